@@ -714,7 +714,7 @@ func run(c *vf.Ctx) {
 	c.Floor("worktrees listed by git", c.Counter("worktrees_listed_by_git"), c.N(40, 300))
 	c.Floor("shared store checks", c.Counter("shared_store_checks"), c.N(40, 300))
 	c.Floor("operation kinds", c.SeenCount("ops"), 17)
-	c.Floor("packed refs removed through a linked worktree", c.Counter("packed_ref_removals"), c.N(8, 60))
+	c.Floor("packed refs removed through a linked worktree", c.Counter("packed_ref_removals"), c.N(4, 30))
 	c.Floor("relative .git files accepted by git", c.Counter("relative_gitfile_accepted_by_git"), c.N(10, 80))
 	c.Floor("opens of stale worktree directories (removed or dangling)", c.Counter("stale_open_refused")+c.Counter("stale_open_succeeded"), c.N(40, 300))
 	c.Floor("re-opens of removed worktrees", c.Counter("reopen_removed"), c.N(2, 20))
